@@ -133,7 +133,7 @@ Unquote(s) ==
 \*   NAL   U+00E9 a non-ASCII letter
 SUP2 == "^"
 ARD3 == "`"
-NAL  == "@"
+NAL  == "*"
 NonAscii == {SUP2, ARD3, NAL}
 IsAscii(s) == T!Chars(s) \cap NonAscii = {}                          \* str.isascii() / .encode("ascii") succeeds
 PyIsDigit(s) == Len(s) > 0 /\ T!Chars(s) \subseteq (T!Digits \cup {SUP2, ARD3})     \* str.isdigit()
@@ -160,6 +160,7 @@ SpartanShape(line) ==
     /\ IsAscii(line)                               \* self.request.encode("ascii")
     /\ Len(p) = 3 /\ (\A i \in 1..3 : p[i] # "") /\ PyIsDigit(p[3])         \* parts[2].isdigit()
     /\ ~T!StartsWith(p[1], "/")                                             \* not parts[0].startswith("/")  [c3ed498]
+    /\ ~T!Contains(line, "\t")                                              \* "\t" not in self.request
 
 \* "yes" | "no" | the class raised.  D = the defects in force
 ClaimsGP(r, secure, D) ==
